@@ -140,8 +140,8 @@ type c10haWorld struct {
 	ctx           context.Context
 
 	nRekey, nFailover, nRootRot, nKeyring, nRestart, nUnseal, nRecovery int
-	staleLeader                                             bool // leadership went to a node that is stale
-	chain                                                   bool // ... and that node then rotated the root key without shares
+	staleLeader                                                         bool // leadership went to a node that is stale
+	chain                                                               bool // ... and that node then rotated the root key without shares
 }
 
 func (w *c10haWorld) logf(f string, a ...any) { w.log = append(w.log, fmt.Sprintf(f, a...)) }
